@@ -116,19 +116,19 @@ func size(sel, avail int) int {
 // ---- per-connection state (runs on the loop goroutine) ------------------------------
 
 type connState struct {
-	id        int
-	spec      connSpec
-	cfg       fx.Cfg
-	pc        int
-	consumed  int
-	delivered int64 // max(consumed + buffered) seen at a callback (atomic)
-	sent      int64 // bytes the peer has written or is writing (atomic)
-	mu        sync.Mutex
-	fails     []string
-	opened    int32
-	closedCh  chan struct{}
-	closeErr  error
-	final     int
+	id         int
+	spec       connSpec
+	cfg        fx.Cfg
+	pc         int
+	consumed   int
+	delivered  int64 // max(consumed + buffered) seen at a callback (atomic)
+	sent       int64 // bytes the peer has written or is writing (atomic)
+	mu         sync.Mutex
+	fails      []string
+	opened     int32
+	closedCh   chan struct{}
+	closeErr   error
+	final      int
 	afterClose int32
 	// labels
 	leftover, spanPeek, bigLeftover, failWriter, crossDiscard bool
